@@ -370,9 +370,18 @@ impl ShardSplitter {
                 min_time: old_metadata.min_time,
                 max_time: split_ts,
             };
-            self.metadata
-                .update_shard_metadata(&new_shard_a.shard_id, &new_shard_a, 0)
-                .await?;
+            // The creation may have taken effect before an interruption that lost the flag;
+            // the shard id is unique to this split, so an existing shard is ours.
+            if self
+                .metadata
+                .get_shard_metadata(&new_shard_a.shard_id)
+                .await?
+                .is_none()
+            {
+                self.metadata
+                    .update_shard_metadata(&new_shard_a.shard_id, &new_shard_a, 0)
+                    .await?;
+            }
             progress.shard_a_created = true;
             self.persist_progress(progress).await?;
         }
@@ -391,9 +400,16 @@ impl ShardSplitter {
                 min_time: split_ts,
                 max_time: old_metadata.max_time,
             };
-            self.metadata
-                .update_shard_metadata(&new_shard_b.shard_id, &new_shard_b, 0)
-                .await?;
+            if self
+                .metadata
+                .get_shard_metadata(&new_shard_b.shard_id)
+                .await?
+                .is_none()
+            {
+                self.metadata
+                    .update_shard_metadata(&new_shard_b.shard_id, &new_shard_b, 0)
+                    .await?;
+            }
             progress.shard_b_created = true;
             self.persist_progress(progress).await?;
         }
